@@ -55,6 +55,7 @@ type Node struct {
 	InExpr bool
 	Def    *Node
 	Quote  byte
+	ET     T // element type of a list-typed node (TS for split, TN for list/int_list/...)
 }
 
 // ---- constructors
@@ -116,7 +117,7 @@ func IndexS(base *Node, k string) *Node {
 	return &Node{K: KIndex, T: TS, A: []*Node{base}, S: k, IdxStr: true}
 }
 func Ref(name string, def *Node) *Node {
-	return &Node{K: KRef, T: def.T, Op: name, Def: def}
+	return &Node{K: KRef, T: def.T, Op: name, Def: def, ET: def.ET}
 }
 
 var funcRet = map[string]T{
@@ -132,7 +133,14 @@ var aggrNames = map[string]bool{"count": true, "sum": true, "avg": true, "min": 
 func IsAggr(name string) bool { return aggrNames[name] }
 
 func Call(name string, args ...*Node) *Node {
-	return &Node{K: KCall, T: funcRet[name], Op: name, A: args}
+	n := &Node{K: KCall, T: funcRet[name], Op: name, A: args}
+	if n.T == TL {
+		n.ET = TN
+		if name == "split" {
+			n.ET = TS
+		}
+	}
+	return n
 }
 
 // HasAggr reports whether the tree contains an aggregate call.
